@@ -138,6 +138,12 @@ def run(ctx):
     minmax(ctx)
     rebind(ctx)
     rebind_order(ctx)
+    from .. import macrolint, facts as _facts
+    macrolint.hygiene_rule(ctx, ["opt_unwrap", "opt_unwrap_or", "opt_unwrap_or_else", "opt_ok_or", "opt_ok_or_else", "opt_map", "opt_and_then",
+                                 "opt_or_else", "opt_flatten", "opt_filter", "res_unwrap_or", "res_unwrap_or_else", "res_unwrap_err_or_else",
+                                 "res_ok", "res_err", "res_map", "res_map_err", "res_and_then", "res_or_else", "try_", "try_opt", "try_rebind",
+                                 "rebind_if_ok", "min", "max", "min_by", "max_by", "min_by_key", "max_by_key", "unwrap_ctx"], _facts.REPO)
+    ctx.floor("HYGIENE", 30)
     ctx.floor("TAB-MACRO", 34)
     ctx.floor("TAB-MINMAX", 12)
     ctx.floor("ACC-REBIND", 12)
